@@ -16,6 +16,7 @@ ANCHOR_FILES = ['proxy/http/proxy/auth.py', 'proxy/common/flag.py', 'proxy/commo
                 'proxy/http/exception/proxy_auth_failed.py', 'proxy/http/exception/base.py', 'proxy/http/responses.py']
 
 LOG = []            # the chronological log of the run in progress
+RETS = {}           # index into LOG of a 'call' entry -> what that hook invocation returned/raised (for the oracles only)
 
 CTX_KEYS = ['client_ip', 'client_port', 'server_host', 'server_port', 'connection_time_ms', 'request_method',
             'request_path', 'request_bytes', 'request_ua', 'request_version', 'response_bytes', 'response_code',
@@ -120,29 +121,34 @@ def make_plugin_class(table):
     def ctx_del(k, c):
         c.pop(k.decode(), None); return c
 
+    def run(self, hk, arg, canon, act, x, modify, delete):
+        LOG.append(('call', pid, hk, arg))
+        i = len(LOG) - 1
+        try:
+            r = interp(act, count(self, hk), x, modify, delete)
+        except Exception as e:
+            RETS[i] = ('raise', type(e).__name__, getattr(e, 'status_code', None), getattr(e, 'reason', None), getattr(e, 'body', None))
+            raise
+        RETS[i] = ('none',) if r is None else ('value', canon(r))
+        return r
+
     def before_upstream_connection(self, request):
-        LOG.append(('call', pid, 'BUC', ('req', canon_request(request))))
-        return interp(table['buc'], count(self, 'BUC'), request, req_mod, req_del)
+        return run(self, 'BUC', ('req', canon_request(request)), canon_request, table['buc'], request, req_mod, req_del)
 
     def handle_client_request(self, request):
-        LOG.append(('call', pid, 'HCR', ('req', canon_request(request))))
-        return interp(table['hcr'], count(self, 'HCR'), request, req_mod, req_del)
+        return run(self, 'HCR', ('req', canon_request(request)), canon_request, table['hcr'], request, req_mod, req_del)
 
     def handle_client_data(self, raw):
-        LOG.append(('call', pid, 'HCD', ('bytes', bytes(raw))))
-        return interp(table['hcd'], count(self, 'HCD'), raw, lambda m, x: memoryview(bytes(x) + m), lambda k, x: x)
+        return run(self, 'HCD', ('bytes', bytes(raw)), bytes, table['hcd'], raw, lambda m, x: memoryview(bytes(x) + m), lambda k, x: x)
 
     def handle_upstream_chunk(self, chunk):
-        LOG.append(('call', pid, 'HUC', ('bytes', bytes(chunk))))
-        return interp(table['huc'], count(self, 'HUC'), chunk, lambda m, x: memoryview(bytes(x) + m), lambda k, x: x)
+        return run(self, 'HUC', ('bytes', bytes(chunk)), bytes, table['huc'], chunk, lambda m, x: memoryview(bytes(x) + m), lambda k, x: x)
 
     def on_access_log(self, context):
-        LOG.append(('call', pid, 'OAL', ('ctx', canon_ctx(context))))
-        return interp(table['oal'], count(self, 'OAL'), context, ctx_mod, ctx_del)
+        return run(self, 'OAL', ('ctx', canon_ctx(context)), canon_ctx, table['oal'], context, ctx_mod, ctx_del)
 
     def on_upstream_connection_close(self):
-        LOG.append(('call', pid, 'OUCC', ('unit',)))
-        interp(table['oucc'], count(self, 'OUCC'), None, lambda m, x: x, lambda k, x: x)
+        run(self, 'OUCC', ('unit',), lambda v: None, table['oucc'], 0, lambda m, x: x, lambda k, x: x)
 
     def resolve_dns(self, host, port):
         LOG.append(('call', pid, 'DNS', ('hostport', host.encode(), port)))
@@ -171,7 +177,14 @@ def make_logging_auth():
 
         def before_upstream_connection(self, request):
             LOG.append(('call', 0, 'BUC', ('req', canon_request(request))))
-            return super().before_upstream_connection(request)
+            i = len(LOG) - 1
+            try:
+                r = super().before_upstream_connection(request)
+            except Exception as e:
+                RETS[i] = ('raise', type(e).__name__, 407, None, None)
+                raise
+            RETS[i] = ('value', canon_request(r))
+            return r
 
         def handle_client_request(self, request):
             LOG.append(('call', 0, 'HCR', ('req', canon_request(request))))
@@ -249,6 +262,7 @@ def run_connection(case):
     from proxy.core.connection.server import TcpServerConnection
     import proxy.core.connection.server as server_mod
     del LOG[:]
+    RETS.clear()
     flags = make_flags(case)
     order = chain_ids(flags)
     real_auth, logging_auth = make_logging_auth()
@@ -325,11 +339,11 @@ def run_connection(case):
                 cc()
             sim.client.close = cclose
 
+            executed = 0
             for st in steps:
                 if sim.torn:
                     break
-                if getattr(sim.h, 'reads_teared', False):
-                    break
+                executed += 1
                 if st[0] == 'first':
                     for seg in st[3]:
                         sim.client.feed(seg)
@@ -356,7 +370,7 @@ def run_connection(case):
                 sim.run(50)
             if not sim.torn:
                 sim.teardown()          # idle timeout / executor shutdown
-            out = dict(log=list(LOG), order=order, agent=agent_value(),
+            out = dict(log=list(LOG), rets=dict(RETS), order=order, agent=agent_value(), executed=executed,
                        auth_code=None if flags.auth_code is None else bytes(flags.auth_code),
                        connect_log=list(sim.connect_log), client_out=bytes(sim.client.out),
                        upstream_out=[bytes(u.out) for u in sim.upstreams],
@@ -368,7 +382,30 @@ def run_connection(case):
 
 # ------------------------------------------------------------------ Coq rendering
 def cb(b):
-    return C.coq_bytes(b)
+    """bytes as a Coq term; printable runs as string literals (much cheaper for coqc to parse than numerals)"""
+    b = bytes(b)
+    if not b:
+        return '[]'
+    parts, i = [], 0
+    while i < len(b):
+        j = i
+        while j < len(b) and 32 <= b[j] <= 126:
+            j += 1
+        if j - i >= 3:
+            parts.append('bs "%s"' % b[i:j].decode('ascii').replace('"', '""'))
+            i = j
+            continue
+        j = i
+        while j < len(b):
+            k = j
+            while k < len(b) and 32 <= b[k] <= 126:
+                k += 1
+            if k - j >= 3:
+                break
+            j = max(k, j + 1)
+        parts.append('[' + ';'.join(str(x) for x in b[i:j]) + ']')
+        i = j
+    return parts[0] if len(parts) == 1 and parts[0].startswith('[') else '(' + ' ++ '.join(parts) + ')'
 
 
 def cob(b):
@@ -377,12 +414,22 @@ def cob(b):
 
 def coq_request(r):
     hs = C.coq_list('(%s, (%s, %s))' % (cb(k), cb(n), cb(v)) for k, n, v in r['headers'])
-    return '(mkRequest %s %s %s %s %s %s %s %s)' % (
+    txt = '(mkRequest %s %s %s %s %s %s %s %s)' % (
         cb(r['method']), cob(r['host']), C.coq_option(C.coq_N, r['port']), cob(r['path']), cb(r['version']), hs,
         cob(r['body']), C.coq_bool(r['tunnel']))
+    if _REQ_TABLE is None:
+        return txt
+    if txt not in _REQ_TABLE:
+        _REQ_TABLE[txt] = 'rq%d' % len(_REQ_TABLE)
+    return _REQ_TABLE[txt]
 
 
 def coq_ctx(c):
+    c = list(c)
+    n = len(CTX_KEYS)
+    if [tuple(x) for x in c[:n]] == [(k, '') for k in CTX_KEYS]:
+        rest = c[n:]
+        return 'std_ctx' if not rest else '(std_ctx ++ %s)' % C.coq_list('(%s, %s)' % (cb(k.encode()), cb(v.encode())) for k, v in rest)
     return C.coq_list('(%s, %s)' % (cb(k.encode()), cb(v.encode())) for k, v in c)
 
 
@@ -438,12 +485,28 @@ def coq_step(st):
     return 'SUpstream %s' % cb(st[1])
 
 
+_REQ_TABLE = None
+
+
 def coq_run_term(case, out):
+    """requests occurring several times in the term are bound once with let"""
+    global _REQ_TABLE
+    _REQ_TABLE = {}
+    try:
+        body = _coq_run_term(case, out)
+        table = _REQ_TABLE
+    finally:
+        _REQ_TABLE = None
+    lets = ''.join('let %s := %s in ' % (name, txt) for txt, name in table.items())
+    return '(%s%s)' % (lets, body)
+
+
+def _coq_run_term(case, out):
     c0 = [(k, '') for k in CTX_KEYS]
     return 'CRun %s %s %s %s %s %s %s' % (
         cb(out['agent']), C.coq_list(cb(x) for x in (case.get('disable') or [])), cob(case.get('basic_auth')),
         C.coq_list(coq_table(t) for t in case['tables']), coq_ctx(c0),
-        C.coq_list(coq_step(s) for s in case['steps']), C.coq_list(coq_event(e) for e in out['log']))
+        C.coq_list(coq_step(s) for s in case['steps'][:out['executed']]), C.coq_list(coq_event(e) for e in out['log']))
 
 
 def coq_order_term(case, out):
